@@ -12,6 +12,8 @@ trap 'git -C /repo worktree remove --force $T >/dev/null 2>&1; rm -rf $T.out' EX
 for n in $NAMES; do
   d=seeded/$n
   [ -f $d/patch.diff ] || continue
+  sup=$(/venv/bin/python -c "import json;print(json.load(open('$d/meta.json')).get('superseded_by_fix',''))")
+  [ -n "$sup" ] && { echo "$n: superseded by repository fix $sup (the change no longer breaks the property), skipped"; continue; }
   checks=$(/venv/bin/python -c "import json;m=json.load(open('$d/meta.json'));print(' '.join(k for k,v in m['checks_against_change'].items() if v=='VIOLATION reported'))")
   git -C $T apply "$PWD/$d/patch.diff" 2>/dev/null || { echo "$n: patch does not apply any more"; continue; }
   for c in $checks; do
